@@ -97,11 +97,25 @@ def first_fault(S, start, is_write, unaligned=False):
     return z3.Not(aborted(S))
 
 
+def rd_word(S, addr, start=None):
+    """value of MemA[addr,4] when it does not fault: the word at addr when addr is word aligned, the word at
+    Align(addr,4) in the ARMv6 legacy alignment model (SCTLR.U == 0 && SCTLR.A == 0).  Same function as
+    St.mem_a_get, but with the case split on values rather than on the address so that the aligned case reads
+    at the syntactic address addr (cheap for the solver).  start: an address congruent to addr modulo 4 (the
+    first address of the block), so that all words of a block share one alignment atom."""
+    direct = S._endian(S._read_bytes(addr, 4), 4)
+    if S.arch >= 7:
+        return direct
+    down = S._endian(S._read_bytes(S._align(addr, 4), 4), 4)
+    unal = bits(addr if start is None else start, 1, 0) != 0
+    return z3.If(z3.And(S._legacy_align(), unal), down, direct)
+
+
 def load_words(S, regs, start):
     """data[i] = MemA[start + 4*BitCount(regs<i-1:0>), 4] (value when no fault), stated through the 16 word
     slots start + 4*j so that every memory read has a constant offset from start"""
     below, total = counts(regs)
-    slot = [S.mem_a_get(start + 4 * j, 4) for j in range(16)]
+    slot = [rd_word(S, start + 4 * j, start) for j in range(16)]
     data = []
     for i in range(16):
         v = slot[15]
